@@ -1,6 +1,6 @@
 (* C06 - Anti-replay: no payload is delivered twice, the window tolerates reordering.
    Only statements closed by [exact]; proofs live in Rec/WindowSound.v. *)
-From DtlsV Require Import Lib.Bytes Rec.Window Rec.WindowSound.
+From DtlsV Require Import Lib.Bytes Gen.Generated Rec.Window Rec.WindowSound Rec.WindowRun.
 Open Scope N_scope.
 
 (* For every window size W (1 <= W <= maxseq), every arrival sequence xs (with repetitions,
@@ -42,6 +42,22 @@ Theorem C06_check_refines_set :
     x <= maxseq /\ (latest s < x \/ (latest s - x < N.of_nat W /\ ~ In x S)).
 Proof. exact check_spec. Qed.
 Print Assumptions C06_check_refines_set.
+
+(* Tie to the regenerated facts of the current tree: the window the code hands to the detector
+   is the model's [eff_window] (a whole number of 64-bit words, never smaller than requested,
+   default 64), and sequence numbers are 48-bit. *)
+Theorem C06_generated_window_and_bounds :
+  g_eff_window_0 = 64 /\ g_default_replay_window = 64 /\
+  N.of_nat (eff_window 1) = g_eff_window_1 /\ N.of_nat (eff_window 63) = g_eff_window_63 /\
+  N.of_nat (eff_window 64) = g_eff_window_64 /\ N.of_nat (eff_window 100) = g_eff_window_100 /\
+  g_max_sequence_number = 2 ^ 48 - 1.
+Proof. vm_compute. repeat split; reflexivity. Qed.
+Print Assumptions C06_generated_window_and_bounds.
+
+Theorem C06_eff_window_covers_request :
+  forall W : nat, (W <= eff_window W)%nat /\ (eff_window W mod 64 = 0)%nat.
+Proof. exact eff_window_spec. Qed.
+Print Assumptions C06_eff_window_covers_request.
 
 (* non-vacuity: a concrete run with a reordered, duplicated arrival sequence *)
 Example C06_example :
